@@ -1,16 +1,16 @@
 (* C05 -- dispatch on protocol discriminator and message type is exact. *)
-From NV Require Import Lib.Base Codec.Lang Codec.Def Codec.Sem Codec.Total Codec.Dispatch Codec.DispatchProofs Codec.Final
+From NV Require Import Lib.Base Codec.Lang Codec.Def Codec.Sem Codec.Total Codec.Dispatch Codec.DispatchProofs Codec.GenDefs Codec.Final
   Gen.GenMsgs Gen.GenTypes Gen.GenDispatch Spec.MsgTypes.
 From Coq Require Import String.
 Open Scope N_scope.
 
 (* the four switches and the two Plain* functions have the expected shape; keys distinct; each decode
    case allocates slot X and calls DecodeX; the encode tables mirror the decode tables *)
-Theorem C05_dispatch_checked : dispatch_ok = true.
+Theorem C05_dispatch_checked : dispatch_ok T = true.
 Proof. exact dispatch_checked. Qed.
 
 (* the translated tables equal the pinned TS 24.501 tables 9.7.1 / 9.7.2 for all 256 type octets *)
-Theorem C05_tables_pinned : tables_pinned = true.
+Theorem C05_tables_pinned : tables_pinned T = true.
 Proof. exact dispatch_pinned. Qed.
 
 (* PlainNasDecode routes on the first octet: 0x7E mobility management, 0x2E session management *)
@@ -18,7 +18,7 @@ Theorem C05_plain_decode_routes : forall obs pm,
   plain_decode obs = Ok pm ->
   exists b t, obs = Some (b :: t) /\
     ((b = 126 /\ part_decode true (b :: t) = Ok pm) \/ (b = 46 /\ part_decode false (b :: t) = Ok pm)).
-Proof. exact (plain_decode_exact dispatch_checked). Qed.
+Proof. exact (plain_decode_exact T dispatch_checked). Qed.
 
 (* a successful decode populates exactly one body, the one named by the message-type octet, and the
    header view is the first 3/4 octets = that body's own header octets *)
@@ -30,7 +30,7 @@ Theorem C05_decode_dispatch : forall gmm bs pm, bytes_ok bs ->
     pm_bodies pm = [(name, m)] /\
     assocN (nth (h - 1) bs 0) (pinned gmm) = Some name /\
     firstn h m = map (fun b => Some (mkie 0 0 [b])) (firstn h bs).
-Proof. exact (part_decode_exact dispatch_checked dispatch_pinned headers_checked_ok). Qed.
+Proof. exact (part_decode_exact T dispatch_checked dispatch_pinned headers_checked_ok). Qed.
 
 (* nil, empty, foreign discriminator, shorter than a header, unknown message type: error *)
 Theorem C05_reject :
@@ -39,7 +39,7 @@ Theorem C05_reject :
   (forall gmm bs, (List.length bs < hlen_of gmm)%nat -> part_decode gmm bs = Err) /\
   (forall gmm bs, bytes_ok bs -> (hlen_of gmm <= List.length bs)%nat ->
       assocN (nth (hlen_of gmm - 1) bs 0) (pinned gmm) = None -> part_decode gmm bs = Err).
-Proof. exact (plain_decode_rejects dispatch_checked dispatch_pinned headers_checked_ok). Qed.
+Proof. exact (plain_decode_rejects T dispatch_checked dispatch_pinned headers_checked_ok). Qed.
 
 (* encoding: no part -> error; unknown type -> error; otherwise the encoder of that type runs on
    that body (hypothesis: the named body is present -- see C05_encode_nil_body_refuted) *)
@@ -54,7 +54,7 @@ Theorem C05_encode_dispatch_partial :
                      find_def name = Some d ->
                      plain_encode (Some pm) = encode_def d m
      end).
-Proof. exact (plain_encode_exact dispatch_checked dispatch_pinned). Qed.
+Proof. exact (plain_encode_exact T dispatch_checked dispatch_pinned). Qed.
 
 (* known finding F20: header names a type whose body pointer is nil -> nil dereference, not an error *)
 Theorem C05_encode_nil_body_refuted : exists pm, plain_encode (Some pm) = Panic.
